@@ -1,6 +1,7 @@
 CONSTANTS Urls <- UrlsC
           Texts <- TextsC
           Cfgs <- CfgsC
+          ForgetIdentRecord = TRUE
           ConfigRebuilds = TRUE
           MaxMsgs = 4
           MaxInFlight = 3
